@@ -95,6 +95,7 @@ func (p *Parser) Parse(source string) (Node, error) {
 	// Template tokenization complete
 	// Whitespace control has already been applied by the tokenizer
 
+	verifYield("parse.afterTokenize")
 	// Parse tokens into nodes
 	nodes, err := p.parseOuterTemplate()
 	if err != nil {
